@@ -351,6 +351,18 @@ def check_observable(p):
                 ms.scale_strength(f)
                 rng = ChoiceRng(Chooser((zi,)), z=(-1e6, 0.0, 1e6), frac=(0.0, 0.5, 1.0))
                 got = ms.sample(rng)
+                # what is SAMPLED must depend on the last factor only, like the attributes: the same after factor histories
+                for hist in ((0.0,), (0.0, 0.5), (1.0, 0.0), (0.5, 0.0, 1.0)):
+                    ms2 = MagnitudeSampler(magnitude=0.6, magnitude_std=std, magnitude_min=0.1, magnitude_max=0.9)
+                    for g in hist + (f,):
+                        ms2.scale_strength(g)
+                    got2 = ms2.sample(ChoiceRng(Chooser((zi,)), z=(-1e6, 0.0, 1e6), frac=(0.0, 0.5, 1.0)))
+                    p.evaluations += 1
+                    if not (got2 == got or (got2 != got2 and got != got)):
+                        p.violation("C15:sampled_magnitude_depends_on_factor_history|MagnitudeSampler|", dict(observable=True, f=f),
+                                    f"magnitude_std {std}, generator answer #{zi}: factors {hist + (f,)} sample {got2}, a fresh sampler scaled "
+                                    f"to {f} samples {got}")
+                        break
                 p.evaluations += 1
                 lo, hi = 0.1 * f, (0.9 if std not in (0.0, float("inf")) else 0.6) * f
                 if not (lo - 1e-12 <= got <= hi + 1e-12):
